@@ -192,14 +192,14 @@ CLAIMED = {
                    "the constants; 'exactly [G:H] rows' is decided by SMT (z3 QF_BV, re-run with cvc5): "
                    "unsat(exists a transitive action on more points that satisfies the relators with the subgroup "
                    "fixing a point), for every size up to the stated bound; sat models are replayed natively"),
-        text=("PARTIAL. For 35 (thorough: 55) input-free configurations — dihedral, cyclic, finite and free abelian, free, "
+        text=("PARTIAL. For 35 (thorough: 61) input-free configurations — dihedral, cyclic, finite and free abelian, free, "
               "triangle and surface groups with subgroup patterns such as trivial / whole group / <g1> / <g2> / <g1 g2> / "
               "<g^m> / <g1 g2 g1, g2> / <g2^3> / <[g1,g2]> — the real coset_table and coset_representative built from the current tree are "
               "run; every generator acts as a permutation whose inverse is the action of the inverse generator, the "
               "action is transitive, every relator traced from every row returns, every subgroup generator traced "
               "from row 0 returns to row 0, every representative traced from row 0 ends in its row (ground checks), "
               "and the table has exactly [G:H] rows: a valid table has at most [G:H] rows, and the solver shows that "
-              "no transitive action on more points (up to 8, thorough 9) satisfies the relators with the subgroup "
+              "no transitive action on more points (up to 8) satisfies the relators with the subgroup "
               "fixing a point. NOT decided: arbitrary presentations and subgroup words."),
         note=("coset_table's code is never modelled: for an input-free configuration its execution is a plain run; the "
               "solver's part is the index. Trusted base: rustc (release profile), z3 4.8.12 / cvc5 1.0, the QF_BV "
